@@ -65,6 +65,10 @@ DepositFair(L, M, d, e, a) ==
         /\ \A o \in Delegators(L, e) \ {d} : Worth(M, o, e) >= Worth(L, o, e)       \* F3 nobody else loses
         /\ Worth(M, d, e) <= Worth(L, d, e) + a                                      \* F4 the depositor gains nothing
 
+(* debonding shares queued for delegator d in pool e (all end epochs) *)
+DebShares(L, d, e) == SumSeq(SelectSeq(L.deb, LAMBDA x : x[1] = d /\ x[2] = e), 3)
+DebDelegators(L, e) == {L.deb[i][1] : i \in {j \in DOMAIN L.deb : L.deb[j][2] = e}}
+
 (* C15 fairness of one reclaim of s shares by d from pool e (value moves to e's debonding pool). *)
 ReclaimFair(L, M, d, e, s) ==
     LET B == L.acc[e].ab   T == L.acc[e].as
@@ -77,6 +81,10 @@ ReclaimFair(L, M, d, e, s) ==
         /\ IF DT = 0 THEN ds = p ELSE ds * DB <= p * DT                              \* F1 on the debonding pool
         /\ \A o \in Delegators(L, e) \ {d} : Worth(M, o, e) >= Worth(L, o, e)       \* F3
         /\ p + Worth(M, d, e) <= Worth(L, d, e)                                      \* F4
+        \* the reclaimer is credited exactly the debonding shares minted (several reclaims in one epoch merge into one entry),
+        \* nobody else's queued claim changes
+        /\ DebShares(M, d, e) = DebShares(L, d, e) + ds
+        /\ \A o \in (DebDelegators(L, e) \cup DebDelegators(M, e)) \ {d} : DebShares(M, o, e) = DebShares(L, o, e)
 
 (* F5: between two ledgers without slashing no pool's share price falls. *)
 PriceNotFalling(L, M) ==
